@@ -7,6 +7,7 @@ import (
 	"time"
 
 	"github.com/zenon-network/go-zenon/chain"
+	"github.com/zenon-network/go-zenon/chain/nom"
 	"github.com/zenon-network/go-zenon/common/types"
 	"github.com/zenon-network/go-zenon/consensus"
 	"github.com/zenon-network/go-zenon/pillar"
@@ -171,4 +172,35 @@ func ConsensusSummary(n *Node) (out map[string]string) {
 		out[fmt.Sprintf("schedule/%d", t)] = s
 	}
 	return out
+}
+
+// ViaPublishJSON passes a block through the JSON-RPC publication route (ledger.publishRawTransaction): the block
+// as JSON text, decoded into the RPC type, converted to a ledger block, token standard checked against the ledger.
+// It returns the block the RPC handler hands to the supervisor, or the error the handler answers before that.
+func ViaPublishJSON(n *Node, b *nom.AccountBlock) (*nom.AccountBlock, error) {
+	text, err := json.Marshal(b)
+	if err != nil {
+		return nil, err
+	}
+	rb := new(api.AccountBlock)
+	if err := json.Unmarshal(text, rb); err != nil {
+		return nil, err
+	}
+	if rb.ChainIdentifier != 0 && rb.ChainIdentifier != n.Chain.ChainIdentifier() {
+		return nil, fmt.Errorf("the block has a different network Id")
+	}
+	lb, err := rb.ToLedgerBlock()
+	if err != nil {
+		return nil, err
+	}
+	if lb.TokenStandard != types.ZeroTokenStandard {
+		ti, err := n.Chain.GetFrontierMomentumStore().GetTokenInfoByTs(lb.TokenStandard)
+		if err != nil {
+			return nil, err
+		}
+		if ti == nil {
+			return nil, fmt.Errorf("ts doesn't exist")
+		}
+	}
+	return lb, nil
 }
